@@ -72,6 +72,9 @@ pub fn run(o: &Opts) {
       if nodes.len() > 1500 {
         continue;
       }
+      if std::env::var("VH_TRACE").is_ok() {
+        eprintln!("c19 {lang} nodes={} bytes={} head={:?}", nodes.len(), src.len(), &src[..src.char_indices().nth(60).map(|x| x.0).unwrap_or(src.len())]);
+      }
       let td = dump_tree_at(&root, 0);
       let id = |n: &N| Val::n(td.ids[&n.node_id()]);
       let ids = |v: Vec<N>| Val::L(v.iter().map(|n| id(n)).collect());
